@@ -265,30 +265,28 @@ def setMaxlen (d : Deque) (E : Externals) (now : Int) (m : Nat) : Deque × Out :
   let c := trimLoop E now m (c.rows.length + 1) c
   ({ cache := c.tend, maxlen := some m }, .none)
 
-/-- `rotate(steps)`: pop from one end, push to the other, `steps mod len` times -/
-def rotateLoop (E : Externals) (now : Int) (right : Bool) : Nat → Deque → Deque
-  | 0, d => d
+/-- `rotate(steps)`: pop from one end, push to the other, `steps mod len` times
+(persistent.py:598-644).  `except IndexError: return` ends the loop on an empty deque; an exception
+of the re-append (`self._appendleft(value)` / `self._append(value)`) propagates out of `rotate` —
+the popped item is lost.  A pop result that is not a value cannot occur (`read=False`); there is
+nothing to append then and the loop goes on. -/
+def rotateLoop (E : Externals) (now : Int) (right : Bool) : Nat → Deque → Deque × Out
+  | 0, d => (d, .none)
   | n + 1, d =>
     let (d1, o) := d.pop E now (!right)
     match o with
-    | .val v => rotateLoop E now right n (d1.append E now v right).1
-    | _ => d1
+    | .val v =>
+      match d1.append E now v right with
+      | (d2, .exc e) => (d2, .exc e)
+      | (d2, _) => rotateLoop E now right n d2
+    | .exc e => if e == "IndexError" then (d1, .none) else (d1, .exc e)
+    | _ => rotateLoop E now right n d1
 
 def rotate (d : Deque) (E : Externals) (now : Int) (steps : Int) : Deque × Out :=
   let n : Int := d.cache.count
   if n == 0 then (d, .none)
-  else if steps ≥ 0 then (rotateLoop E now true (steps % n).toNat d, .none)
-  else (rotateLoop E now false ((-steps) % n).toNat d, .none)
-
-/-- `reverse()`: copy out in reverse order, clear, extend -/
-def reverse (d : Deque) (E : Externals) (now : Int) : Deque × Out :=
-  let (d1, vals) := d.iterVals E now true
-  let (d2, _) := d1.clear
-  let d3 := (Fanout.outList vals).foldl (fun (acc : Deque) o => match o with
-    | .val v => (acc.append E now v false).1
-    | _ => acc) d2
-  (d3, .none)
-
+  else if steps ≥ 0 then rotateLoop E now true (steps % n).toNat d
+  else rotateLoop E now false ((-steps) % n).toNat d
 
 /-- `extend` / `+=` (left = false) and `extendleft`: `for value in iterable: self._append(value)` —
 one `append` per value, in order, stopping at the first one that raises (the values before it
@@ -300,6 +298,27 @@ def extend (d : Deque) (E : Externals) (now : Int) (vs : List PyVal) (left : Boo
     match d.append E now v left with
     | (d1, .exc e) => (d1, .exc e)
     | (d1, _) => extend d1 E now vs left
+
+/-- can the temporary Deque of `reverse` (a fresh `Cache()`: pickle `Disk`, default
+`disk_min_file_size`) store the value?  (`Disk.store` must succeed and `sqlite3` must bind the cell) -/
+def tempStorable (E : Externals) (v : PyVal) : Bool :=
+  match place E ({} : Cfg).disk ({} : Cfg).minFileSize v false with
+  | .error _ => false
+  | .ok (.inline _ sv) => Cache.bindable sv
+  | .ok (.file _ _) => true
+
+/-- `reverse()` (persistent.py:574-596): `temp = Deque(iterable=reversed(self))` copies the values
+out, back to front, into a temporary Deque — a value the temporary Deque cannot store raises there,
+BEFORE anything is changed —; then `self._clear()` and `self._extend(temp)` (one `append` per value,
+stopping at the first one that raises).  Of the temporary Deque only this is modelled: whether it
+can store each value (`tempStorable`), and that it gives the values back as they were put in. -/
+def reverse (d : Deque) (E : Externals) (now : Int) : Deque × Out :=
+  let (d1, vals) := d.iterVals E now true
+  let vs := outVals (Fanout.outList vals)
+  if vs.all (tempStorable E) then
+    let (d2, _) := d1.clear
+    d2.extend E now vs false
+  else (d1, .exc "UnicodeEncodeError")
 
 /-- `count(value)`: walk the deque, `value == item` -/
 def countOf (d : Deque) (E : Externals) (now : Int) (v : PyVal) : Deque × Out :=
